@@ -308,6 +308,14 @@ class Check:
                 self.proof_broken("tools/translate_bitmask.py: `impl BitMask` of genapi/src/masked_int_reg.rs no longer has "
                                   "the shape the translator accepts (%s): gen/BitMaskSrc.v cannot be regenerated" % e)
                 return False
+        if pid in ("C13", "C14"):
+            import translate_decoders
+            try:
+                translate_decoders.regenerate(REPO)
+            except (translate_decoders.ShapeError, OSError) as e:
+                self.proof_broken("tools/translate_decoders.py: the bit-level decoders of cameleon/src/u3v/register_map.rs no "
+                                  "longer have the shape the translator accepts (%s): gen/DecodersSrc.v cannot be regenerated" % e)
+                return False
         if pid == "C17":
             import translate_names
             try:
@@ -319,6 +327,8 @@ class Check:
         tr = {"C02": "tools/translate_bitmask.py (typed mini-Rust translator of `impl BitMask`, genapi/src/masked_int_reg.rs -> gen/BitMaskSrc.v) and lib/RustInt.v (debug-build semantics of the integer operations)",
               "C08": "tools/translate_proto.py (protocol tables -> gen/ProtoTables.v)", "C09": "tools/translate_proto.py (protocol tables -> gen/ProtoTables.v)",
               "C11": "tools/translate_proto.py (protocol tables -> gen/ProtoTables.v)",
+              "C13": "tools/translate_decoders.py + tools/minirust.py (typed mini-Rust translator of the bit-level decoders, the bit macros, register_address and ParseBytes for BusSpeed of cameleon/src/u3v/register_map.rs -> gen/DecodersSrc.v) and lib/RustInt.v (debug-build semantics of the integer operations)",
+              "C14": "tools/translate_decoders.py + tools/minirust.py (typed mini-Rust translator of genicam_file_version / file_type / compression_type of cameleon/src/u3v/register_map.rs -> gen/DecodersSrc.v) and lib/RustInt.v (debug-build semantics of the integer operations)",
               "C10": "tools/translate_chunks.py (symbolic executor of ReadMemChunks::next / WriteMemChunks::next etc. -> gen/ReadChunks.v) and lib/RustInt.v",
               "C15": "tools/translate_code.py (translator of enable_streaming + Sirm accessors -> gen/EnableStreaming.v) and lib/RustInt.v",
               "C17": "tools/translate_names.py (element names and literal tables -> gen/ElemNames.v)"}.get(pid)
